@@ -1456,10 +1456,18 @@ class Interp(InterpBase):
         elif isinstance(t, (ast.Tuple, ast.List)):
             if any(isinstance(x, ast.Starred) for x in t.elts):
                 kind, items = self.iterate(v, t, frame)
-                if kind != "concrete":
-                    raise Unsupported("starred unpacking of an unknown iterable", t, frame.fi)
                 k = [i for i, x in enumerate(t.elts) if isinstance(x, ast.Starred)][0]
                 after = len(t.elts) - k - 1
+                if kind != "concrete":
+                    # a sequence of unknown length: fixed positions are subscripts from either end, the starred name holds the slice between
+                    if not isinstance(v, (Term, Seq)):
+                        raise Unsupported("starred unpacking of an unknown iterable", t, frame.fi)
+                    for i, x in enumerate(t.elts[:k]):
+                        self.assign(x, self.subscript(v, i, t, frame), frame)
+                    self.assign(t.elts[k].value, self.subscript(v, slice(k, -after if after else None), t, frame), frame)
+                    for j, x in enumerate(t.elts[k + 1:]):
+                        self.assign(x, self.subscript(v, -(after - j), t, frame), frame)
+                    return
                 if len(items) < len(t.elts) - 1:
                     raise Raised(None, "ValueError")
                 for x, item in zip(t.elts[:k], items[:k]):
